@@ -1,6 +1,6 @@
 import abc
 import copy
-from typing import Iterable, Optional, Type, TypeVar
+from typing import Callable, Iterable, Optional, Type, TypeVar
 from .. import base
 from .repeated import Repeated
 from .base_property import base_rw_property
@@ -131,6 +131,19 @@ class optional_field(field[Optional[_M]]):
         ...
 
 
+def _touches(
+        token: base.RawTokenModel,
+        step: Callable[[base.RawTokenModel], Optional[base.RawTokenModel]],
+        end: int,
+) -> bool:
+    """Whether the nearest token with text in the direction of step shows (at its end 0 / -1) a character that
+    has to be kept apart from what comes before / after it: anything but a blank or a bracket."""
+    neighbor = step(token)
+    while neighbor is not None and not neighbor.raw_text:
+        neighbor = step(neighbor)
+    return neighbor is not None and neighbor.raw_text[end] not in ' \t\r\n{}()'
+
+
 class optional_left_field(optional_field[_M]):
 
     def detach_with_separators(self, value: Optional[_M]) -> list[base.RawTokenModel]:
@@ -162,6 +175,9 @@ class optional_left_field(optional_field[_M]):
     ) -> None:
         first = token_store.get_next(pivot)
         assert first is not None
+        if first is not current.first_token and _touches(current.last_token, token_store.get_next, 0):
+            # only the separators would keep the pivot apart from what follows the child (`Cash 10CAD`): keep them.
+            first = current.first_token
         token_store.remove(first, current.last_token)
 
 
@@ -196,6 +212,9 @@ class optional_right_field(optional_field[_M]):
     ) -> None:
         last = token_store.get_prev(pivot)
         assert last is not None
+        if last is not current.last_token and _touches(current.first_token, token_store.get_prev, -1):
+            # only the separators would keep the pivot apart from what precedes the child: keep them.
+            last = current.last_token
         token_store.remove(current.first_token, last)
 
 
